@@ -169,13 +169,15 @@ def typed_bool_inputs(L):
     return [a for a, at in enumerate(L.atoms) if at['kind'] == 'B' and 'hint' not in at and at.get('wire', 1 << 30) < L.nin]
 
 
-def solve(fs, timeout):
-    s = z3.SimpleSolver()
-    s.set('timeout', int(timeout * 1000))
-    s.add(*fs)
-    t = time.time()
-    r = s.check()
-    return str(r), time.time() - t, s
+def solve(fs, timeout, on_sat=None, stagger=None):
+    """restart portfolio in forked, hard-killed children (engine/common.portfolio_solve): the verdict is the first sat/unsat that
+    any variant of the same formula set returns. -> verdict, seconds, on_sat payload, portfolio info for the evidence"""
+    from common import portfolio_solve
+    r, secs, payload, info = portfolio_solve(fs, timeout, on_sat=on_sat, stagger_s=stagger)
+    pf = {'variant': info['variant'], 'variants_started': info['variants_started']}
+    if info['variants_started'] > 1 or r not in ('sat', 'unsat'):
+        pf['answers'] = info['answers']
+    return r, secs, payload, pf
 
 
 def run_task(task):
@@ -200,17 +202,23 @@ def run_task(task):
         asserts = L.all_assertions(used)
         sp = spec(L, lay, used, hdefs)
         base = L.closure(used) + list(hdefs)
-        r, secs, s = solve(base + asserts + [z3.Not(sp)], timeout)
-        o = {'name': '%s D=%d B=%d soundness (hints free): constraints & not Spec' % (kind, D, B), 'verdict': r, 'expect': 'unsat', 'secs': secs}
-        if r == 'sat':
+        stagger = task.get('stagger')
+
+        def sound_model(s):
             m0 = s.model()
             m = concretise(s, L, hdefs)
-            o['concretised'] = m is not None
-            o['model'] = extract_model(L, lay, m if m is not None else m0)
+            return {'concretised': m is not None, 'model': extract_model(L, lay, m if m is not None else m0)}
+        q_sound = base + asserts + [z3.Not(sp)]
+        r, secs, pl, pf = solve(q_sound, timeout, sound_model, stagger)
+        o = {'name': '%s D=%d B=%d soundness (hints free): constraints & not Spec' % (kind, D, B), 'verdict': r, 'expect': 'unsat', 'secs': secs, 'portfolio': pf}
+        if r == 'sat':
+            o.update(pl)
         res['obls'].append(o)
         if task.get('diff'):
             # differential run of the same query on the other installed z3 (4.8.12 binary), from the SMT-LIB2 dump
             import subprocess, tempfile
+            s = z3.SimpleSolver()
+            s.add(*q_sound)
             with tempfile.NamedTemporaryFile('w', suffix='.smt2', delete=False) as f:
                 f.write('(set-logic ALL)\n' + s.to_smt2())
             try:
@@ -220,8 +228,8 @@ def run_task(task):
                 other = 'timeout'
             os.unlink(f.name)
             res['obls'].append({'name': '%s D=%d B=%d differential: z3 4.8.12 on the dumped soundness query agrees with z3 5.1.0 (%s)' % (kind, D, B, r), 'verdict': other, 'expect': r, 'secs': 0.0})
-        r2, secs2, s2 = solve(base + asserts, timeout)
-        res['obls'].append({'name': '%s D=%d B=%d soundness twin: constraints satisfiable' % (kind, D, B), 'verdict': r2, 'expect': 'sat', 'secs': secs2})
+        r2, secs2, _, pf2 = solve(base + asserts, timeout, None, stagger)
+        res['obls'].append({'name': '%s D=%d B=%d soundness twin: constraints satisfiable' % (kind, D, B), 'verdict': r2, 'expect': 'sat', 'secs': secs2, 'portfolio': pf2})
         # ---- completeness: honest hints
         tb = typed_bool_inputs(L)
         if tb:
@@ -231,19 +239,23 @@ def run_task(task):
         sp = spec(L, lay, used, hdefs)
         hh = honest_hints(L, used)
         base = L.closure(used) + list(hdefs)
-        r, secs, s = solve(base + hh + [sp, z3.Not(z3.And(*asserts))], timeout)
-        o = {'name': '%s D=%d B=%d completeness (honest hints): Spec & not constraints' % (kind, D, B), 'verdict': r, 'expect': 'unsat', 'secs': secs}
-        if r == 'sat':
+
+        def compl_model(s):
             m0 = s.model()
             m = concretise(s, L, hdefs)
-            o['concretised'] = m is not None
+            out = {'concretised': m is not None}
             if m is None:
                 m = m0
-            o['model'] = extract_model(L, lay, m)
-            o['failing'] = [A['ci'] for A, za in zip(L.assertions, asserts) if z3.is_false(m.eval(za, model_completion=True))][:5]
+            out['model'] = extract_model(L, lay, m)
+            out['failing'] = [A['ci'] for A, za in zip(L.assertions, asserts) if z3.is_false(m.eval(za, model_completion=True))][:5]
+            return out
+        r, secs, pl, pf = solve(base + hh + [sp, z3.Not(z3.And(*asserts))], timeout, compl_model, stagger)
+        o = {'name': '%s D=%d B=%d completeness (honest hints): Spec & not constraints' % (kind, D, B), 'verdict': r, 'expect': 'unsat', 'secs': secs, 'portfolio': pf}
+        if r == 'sat':
+            o.update(pl)
         res['obls'].append(o)
-        r2, secs2, s2 = solve(base + hh + [sp], timeout)
-        res['obls'].append({'name': '%s D=%d B=%d completeness twin: Spec satisfiable' % (kind, D, B), 'verdict': r2, 'expect': 'sat', 'secs': secs2})
+        r2, secs2, _, pf2 = solve(base + hh + [sp], timeout, None, stagger)
+        res['obls'].append({'name': '%s D=%d B=%d completeness twin: Spec satisfiable' % (kind, D, B), 'verdict': r2, 'expect': 'sat', 'secs': secs2, 'portfolio': pf2})
     except Inconclusive as e:
         res['error'] = 'inconclusive: %s' % e
     return res
